@@ -118,6 +118,10 @@ pub fn alphabet_texts() -> Vec<&'static str> {
     "-1",
     "0",
     "-0",
+    // computed negative zeros (`-0` written as a literal is +0)
+    "0 * -1",
+    "0 / -5",
+    "-0.00 * 1",
     "1",
     "1.0",
     "1.00",
